@@ -71,7 +71,7 @@ def run(ctx):
     P0["design"] = []
     P0["gen"] = None
     P0["driver"] = dict(P["driver"], env={"VERIF_MODE": "connloss"})
-    P0["n_random"] = (16, 160)
+    P0["n_random"] = (32, 240)      # alternating: connection-loss / KDD-empty-collection scenarios
     _std(ctx, P0)
     if ctx.violations:
         return
